@@ -325,6 +325,55 @@ def run_part(chk, workdir):
         if bed is not None:
             bed.close()
 
+    # ---- 2d. the same streams from servers built WITH authentication (valid credentials on every request):
+    #          both tail URLs must stream exactly as without authentication; without credentials: 401, no log byte
+    import base64 as _b64
+    abed = H.StreamBed(os.path.join(wd, 'srv-auth'), S17.Testbed, 'alice', 's3cret') if _mk(os.path.join(wd, 'srv-auth')) else None
+    try:
+        auth = 'Authorization: Basic ' + _b64.b64encode(b'alice:s3cret').decode()
+        errlog = os.path.join(abed.workdir, 'p.err.log')
+        abed.tb.proc.config.stderr_logfile = errlog
+        aplan = [(b'abc', [[('append', b'def')], [('append', b'ghi')]]),
+                 (b'0123', [[('rotate', b'')], [('append', b'new')], [('truncate', 0)], [('append', b'x')]])]
+        for k in range(3 if quick else 40):
+            aplan.append((rbytes(rng, rng.choice([0, 3, 40])), [gen_ops(rng, False) for _ in range(rng.randrange(1, 5))]))
+        urls = [('/mainlogtail', os.path.join(abed.workdir, 'main.log')), ('/logtail/g:p', os.path.join(abed.workdir, 'p.log')),
+                ('/logtail/g:p/stderr', errlog), ('/logtail/g%3Ap/stdout', os.path.join(abed.workdir, 'p.log'))]
+        for idx, (initial, steps) in enumerate(aplan):
+            for ui, (url, logpath) in enumerate(urls):
+                if idx >= 2 and ui != idx % 4:
+                    continue
+                try:
+                    headb, bursts, states = abed.stream(url, logpath, initial, steps, inet=(idx % 2 == 1),
+                                                       headers=(auth, 'Connection: keep-alive'))
+                except OSError:
+                    count('stream:skipped')
+                    continue
+                count('stream-auth:' + url.split('/')[1])
+                if not headb.startswith(b'HTTP/1.1 200') or b'Transfer-Encoding: chunked' not in headb:
+                    chk.violation({'kind': 'PROPERTY VIOLATED: with authentication configured, a tail request carrying the right '
+                                   'credentials did not get the chunked 200 stream', 'request': 'GET %s HTTP/1.1' % url,
+                                   'request_headers': [auth, 'Connection: keep-alive'], 'server_credentials': ['alice', 's3cret'],
+                                   'first_bytes': headb[:300].decode('latin-1'), 'initial': list(initial[:200]), 'steps': _j(steps)})
+                    continue
+                id0, table0 = states[0]
+                stream_cases.append('(%s, %s, %s, %s, %s)' % (
+                    zlit(id0), table_term(table0), zlit(1024), hist_term(states), coq_list([bytes_lit(b) for b in bursts])))
+                stream_meta.append({'url': url, 'authenticated': True, 'initial': list(initial[:200]), 'steps': _j(steps),
+                                    'bursts': [list(b[:200]) for b in bursts]})
+                _monitor_stream(chk, H, url + ' (authenticated server)', initial, steps, b''.join(bursts))
+                distinct.add(('stream-auth', url, tuple(len(b) > 0 for b in bursts)))
+        for url, logpath in urls[:2]:
+            headb, bursts, states = abed.stream(url, logpath, b'secret-bytes', [[('append', b'more-secret')]])
+            count('stream-auth:no-credentials')
+            got = headb + b''.join(bursts)
+            if not got.startswith(b'HTTP/1.1 401') or b'secret' in got:
+                chk.violation({'kind': 'PROPERTY VIOLATED: tail request without credentials on an authenticated server was not a '
+                               'plain 401', 'request': 'GET %s HTTP/1.1' % url, 'received': list(got[:400])})
+    finally:
+        if abed is not None:
+            abed.close()
+
     # ---- 3. decoding under arbitrary segmentation: real client vs models
     dec_cases, dec_meta = [], []
     pool = list(streams)
